@@ -531,3 +531,111 @@ func verifScaleLists(a, b JsonNode) string {
 	}
 	return verifRandHunks(a, b)
 }
+
+// verifMediumArrayPairs: pseudo-random arrays of 8 to 15 elements over a three-letter alphabet
+// (tables of more than 64 cells, many repeats), b an independent draw or an edit of a.
+func verifMediumArrayPairs(tier int) ([]jsonArray, []jsonArray) {
+	count := 400
+	if tier >= 1 {
+		count = 6000
+	}
+	r := &verifRng{s: 0x6d656469756d}
+	draw := func() jsonArray {
+		l := 8 + r.intn(8)
+		x := make(jsonArray, l)
+		for i := range x {
+			x[i] = jsonNumber(float64(1 + r.intn(3)))
+		}
+		return x
+	}
+	var as, bs []jsonArray
+	for k := 0; k < count; k++ {
+		a := draw()
+		var b jsonArray
+		switch r.intn(3) {
+		case 0:
+			b = draw()
+		case 1: // drop one element, append another
+			i := r.intn(len(a))
+			b = append(append(jsonArray{}, a[:i]...), a[i+1:]...)
+			b = append(b, jsonNumber(float64(1+r.intn(3))))
+		default: // rotate
+			i := 1 + r.intn(len(a)-1)
+			b = append(append(jsonArray{}, a[i:]...), a[:i]...)
+		}
+		as, bs = append(as, a), append(bs, b)
+	}
+	return as, bs
+}
+
+func verifMediumArraysA(tier int) []jsonArray { a, _ := verifMediumArrayPairs(tier); return a }
+func verifMediumArraysB(tier int) []jsonArray { _, b := verifMediumArrayPairs(tier); return b }
+
+// verifMediumLists (C06, C07): minimality, context and real hunks on arrays of 8 to 15 elements.
+func verifMediumLists(a, b jsonArray) string { return verifRandHunks(a, b) }
+
+// verifDeepSiblingPairs: objects nested 40 deep through keys only, with at the bottom an object that
+// stays the same, a sibling whose key is removed, one that is emptied and one that changes.
+func verifDeepSiblingPairs() ([]JsonNode, []JsonNode) {
+	n := func(f float64) JsonNode { return jsonNumber(f) }
+	wrap := func(x JsonNode, depth int) JsonNode {
+		for i := 0; i < depth; i++ {
+			x = jsonObject{"p": x}
+		}
+		return x
+	}
+	var as, bs []JsonNode
+	for _, depth := range []int{31, 33, 40} {
+		a := jsonObject{"same": jsonObject{"x": n(1), "y": n(2)}, "shrinks": jsonObject{"keep": n(1), "gone": n(2)}, "emptied": jsonObject{"z": n(3)}, "changes": jsonObject{"v": n(1)}}
+		b := jsonObject{"same": jsonObject{"x": n(1), "y": n(2)}, "shrinks": jsonObject{"keep": n(1)}, "emptied": jsonObject{}, "changes": jsonObject{"v": n(2)}}
+		as, bs = append(as, wrap(a, depth)), append(bs, wrap(b, depth))
+	}
+	return as, bs
+}
+
+func verifDeepSiblingA() []JsonNode { a, _ := verifDeepSiblingPairs(); return a }
+func verifDeepSiblingB() []JsonNode { _, b := verifDeepSiblingPairs(); return b }
+
+// verifDeepSiblings (C01, C07, C11, C05): the round trip, real hunks, the RFC 7386 rendering and
+// "empty iff equal" far below the root.
+func verifDeepSiblings(a, b JsonNode) string {
+	for _, o := range [][]Option{nil, {SET}, {MERGE}} {
+		d := a.Diff(b, o...)
+		if !verifPatchGives(a, d, b, o) {
+			return "C01: diff then patch"
+		}
+		if len(a.Diff(a, o...)) != 0 || len(d) == 0 {
+			return "C05: empty iff equal"
+		}
+		if !verifHunksReal(a, b, o) {
+			return "C07: a hunk restates something that did not change"
+		}
+	}
+	// each hunk says only what changed: nothing under "same" is mentioned
+	for _, e := range a.Diff(b) {
+		for _, pe := range e.Path {
+			if k, ok := pe.(PathKey); ok && string(k) == "same" {
+				return "C07: a hunk touches the unchanged sibling"
+			}
+		}
+		if len(e.Path) < 30 {
+			return "C07: a hunk replaces a whole subtree instead of the changed member"
+		}
+	}
+	if !verifRenderMergeFaithful(a, b, []Option{MERGE}) {
+		return "C11: RFC 7386 rendering"
+	}
+	return ""
+}
+
+// verifNumberEdges (C01, C02, C05, C09, C11, C16): the library-level statements of verifScale plus
+// "empty iff equal" over documents that hold numbers at representation edges.
+func verifNumberEdges(a, b JsonNode) string {
+	if (len(a.Diff(b)) == 0) != a.Equals(b) || a.Equals(b) != specEq(a, b, nil) {
+		return "C05: empty iff equal"
+	}
+	if a.Equals(b) {
+		return ""
+	}
+	return verifScale(a, b)
+}
